@@ -19,6 +19,8 @@ import sys
 import time
 
 VERIF = '/verif'
+# SEED_VERIF_HOME: a private copy of /verif to run the checks in (parallel verification); results are still kept in /verif/seeded
+RUN = os.environ.get('SEED_VERIF_HOME', VERIF)
 
 
 def sh(cmd, cwd=None, timeout=3000, env=None):
@@ -65,7 +67,7 @@ def main():
         out['checks'] = {}
         for p in props:
             t0 = time.time()
-            rc, o = sh('./check %s --tier %s' % (p, tier), cwd=VERIF, env={'VERIF_REPO': sv}, timeout=7200)
+            rc, o = sh('./check %s --tier %s' % (p, tier), cwd=RUN, env={'VERIF_REPO': sv}, timeout=7200)
             viol = re.findall(r'^VIOLATION .*$', o, re.M)
             kinds = []
             for v in viol:
@@ -76,7 +78,7 @@ def main():
     finally:
         sh('git -C /repo worktree remove --force %s' % sv)
         # regenerate tables for the real tree so the next run starts clean
-        sh('/venv/bin/python %s/tools/gen_tables.py /repo %s/coq/Gen/Generated.v' % (VERIF, VERIF))
+        sh('/venv/bin/python %s/tools/gen_tables.py /repo %s/coq/Gen/Generated.v' % (RUN, RUN))
     print(json.dumps(out, indent=1))
     if name and out.get('confirmed'):
         dst = os.path.join(VERIF, 'seeded', name)
